@@ -27,7 +27,7 @@
 //!    `TypeChecker::rust_type_to_roto_type` (src/typechecker/mod.rs — the function
 //!    that turns the Rust signature of every registered function / constant into
 //!    Roto types): where the Roto NAME of a registered type comes from — the
-//!    runtime's own list (`runtime.get_runtime_type(..)`), anything else
+//!    runtime's own list (`runtime.get_runtime_type(..)` and no `static` of the crate in the arm), anything else
 //!    (`.foreign`: the process-global entry, a cache), or no name at all
 //!    (`.structural`: the arm only recurses).
 use crate::find;
@@ -215,6 +215,11 @@ fn sections_of(body: TokenStream, name: &str) -> Vec<(&'static str, Vec<&'static
     let mut i = 0;
     while i < toks.len() {
         if toks[i] == Tok::Ident(name.to_string()) {
+            // the declaration of a function-local static: `static NAME :` / `static mut NAME :`
+            if i > 0 && (toks[i - 1] == Tok::Ident("static".into()) || toks[i - 1] == Tok::Ident("mut".into())) {
+                i += 1;
+                continue;
+            }
             let dot = toks.get(i + 1) == Some(&Tok::Punct('.'));
             let m = match toks.get(i + 2) {
                 Some(Tok::Ident(m)) if dot => m.clone(),
@@ -353,7 +358,7 @@ fn entry_cells(parsed: &[(String, syn::File)], ty: &str) -> usize {
 }
 
 /// the arms of `match ty.description` in `TypeChecker::rust_type_to_roto_type`
-fn name_sources(repo: &Path) -> Result<Vec<(String, &'static str)>, String> {
+fn name_sources(repo: &Path, static_names: &[String]) -> Result<Vec<(String, &'static str)>, String> {
     let file = find::parse(repo, "src/typechecker/mod.rs")?;
     struct F {
         block: Option<syn::Block>,
@@ -368,11 +373,12 @@ fn name_sources(repo: &Path) -> Result<Vec<(String, &'static str)>, String> {
     let mut f = F { block: None };
     f.visit_file(&file);
     let block = f.block.ok_or("src/typechecker/mod.rs: fn rust_type_to_roto_type not found")?;
-    struct M {
+    struct M<'a> {
         arms: Vec<(String, &'static str)>,
         seen: usize,
+        statics: &'a [String],
     }
-    impl<'ast> Visit<'ast> for M {
+    impl<'ast, 'a> Visit<'ast> for M<'a> {
         fn visit_expr_match(&mut self, m: &'ast syn::ExprMatch) {
             let scrutinee = m.expr.to_token_stream().to_string().replace(' ', "");
             if !scrutinee.ends_with(".description") {
@@ -384,12 +390,13 @@ fn name_sources(repo: &Path) -> Result<Vec<(String, &'static str)>, String> {
                 let pat = arm.pat.to_token_stream().to_string().replace(' ', "");
                 let body = idents_of(arm.body.to_token_stream());
                 let names = body.iter().any(|i| i == "TypeName" || i == "Name");
-                let own = body.windows(2).any(|w| w[0] == "runtime" && w[1] == "get_runtime_type");
+                // the runtime's own list, and no process-global state (a `static` of the crate) in the arm
+                let own = body.windows(2).any(|w| w[0] == "runtime" && w[1] == "get_runtime_type") && !body.iter().any(|i| self.statics.contains(i));
                 self.arms.push((pat, if !names { ".structural" } else if own { ".ownList" } else { ".foreign" }));
             }
         }
     }
-    let mut m = M { arms: vec![], seen: 0 };
+    let mut m = M { arms: vec![], seen: 0, statics: static_names };
     m.visit_block(&block);
     if m.seen != 1 {
         return Err(format!("src/typechecker/mod.rs: rust_type_to_roto_type has {} matches over `.description` (expected 1)", m.seen));
@@ -469,7 +476,8 @@ pub fn c12globals(repo: &Path) -> Result<String, String> {
         ));
     }
     s.push_str("]\n\n/-- where `TypeChecker::rust_type_to_roto_type` takes the Roto name of a registered type from, per arm of its match over `ty.description` -/\ndef nameSources : List NameSource := [");
-    let arms = name_sources(repo)?;
+    let static_names: Vec<String> = statics.iter().map(|st| st.name.clone()).collect();
+    let arms = name_sources(repo, &static_names)?;
     let txt: Vec<String> = arms.iter().map(|(p, k)| format!("\n  /- {p} -/ {k}")).collect();
     s.push_str(&txt.join(","));
     s.push_str("]\n\nend RotoV.Gen.C12Globals\n");
